@@ -4,6 +4,7 @@ import (
 	"bytes"
 	"fmt"
 
+	"github.com/google/tink/go/insecurecleartextkeyset"
 	"github.com/google/tink/go/keyset"
 	tinkpb "github.com/google/tink/go/proto/tink_go_proto"
 
@@ -11,17 +12,25 @@ import (
 	tinkbbs "github.com/hyperledger/aries-framework-go/component/kmscrypto/crypto/tinkcrypto/primitive/bbs"
 )
 
-// prefParty: the Tink-backed Crypto service with BBS+ keysets of one output prefix type (RAW, TINK, LEGACY,
-// CRUNCHY).  The issuer holds the private keyset; holder and verifier have their own Crypto instance and receive the
-// public keyset in serialized form.
+// prefParty: the Tink-backed Crypto service with a BBS+ keyset of 1..3 keys, each with its own output prefix type
+// (RAW, TINK, LEGACY, CRUNCHY), one of them primary.  The issuer signs with the key `signer` (i.e. with the keyset as
+// it was when that key was the primary one - a rotated keyset); holder and verifier have their own Crypto instance and
+// receive the CURRENT public keyset in serialized form.
 type prefParty struct {
-	kind                      string
-	issuerC, holderC, verifC  *tinkcrypto.Crypto
-	kh                        *keyset.Handle
-	pubBytes, otherPubBytes   []byte
+	kinds                    []string
+	primary, signer          int
+	issuerC, holderC, verifC *tinkcrypto.Crypto
+	signKH                   *keyset.Handle
+	pubBytes, otherPubBytes  []byte
+	prefixes                 [][]byte // output prefix of every key, in keyset order
 }
 
-var prefCache = map[string]*prefParty{}
+type prefKeyset struct {
+	pub, priv []byte // the current keyset: public part, and cleartext private part (to rebuild the issuer's older state)
+	ids       []uint32
+}
+
+var prefCache = map[string]*prefKeyset{}
 
 func prefixType(kind string) tinkpb.OutputPrefixType {
 	switch kind {
@@ -36,20 +45,43 @@ func prefixType(kind string) tinkpb.OutputPrefixType {
 	}
 }
 
-func newKeyset(kind string) (*keyset.Handle, []byte) {
-	tmpl := tinkbbs.BLS12381G2KeyTemplate()
-	tmpl.OutputPrefixType = prefixType(kind)
+func buildKeyset(kinds []string, primary int) *prefKeyset {
+	m := keyset.NewManager()
+	ks := &prefKeyset{}
 
-	kh, err := keyset.NewHandle(tmpl)
+	for _, k := range kinds {
+		tmpl := tinkbbs.BLS12381G2KeyTemplate()
+		tmpl.OutputPrefixType = prefixType(k)
+
+		id, err := m.Add(tmpl)
+		must(err)
+
+		ks.ids = append(ks.ids, id)
+	}
+
+	must(m.SetPrimary(ks.ids[primary]))
+
+	final, err := m.Handle()
 	must(err)
 
+	ks.pub = pubOf(final)
+
+	buf := &bytes.Buffer{}
+	must(insecurecleartextkeyset.Write(final, keyset.NewBinaryWriter(buf)))
+
+	ks.priv = buf.Bytes()
+
+	return ks
+}
+
+func pubOf(kh *keyset.Handle) []byte {
 	pub, err := kh.Public()
 	must(err)
 
 	buf := &bytes.Buffer{}
 	must(pub.WriteWithNoSecrets(keyset.NewBinaryWriter(buf)))
 
-	return kh, buf.Bytes()
+	return buf.Bytes()
 }
 
 func readPub(b []byte) *keyset.Handle {
@@ -59,13 +91,35 @@ func readPub(b []byte) *keyset.Handle {
 	return kh
 }
 
-func newPref(kind string, key int) *prefParty {
-	ck := fmt.Sprintf("%s-%d", kind, key)
-	if p, ok := prefCache[ck]; ok {
-		return p
+func outputPrefix(kind string, id uint32) []byte {
+	switch kind {
+	case "TINK":
+		return []byte{1, byte(id >> 24), byte(id >> 16), byte(id >> 8), byte(id)}
+	case "LEGACY", "CRUNCHY":
+		return []byte{0, byte(id >> 24), byte(id >> 16), byte(id >> 8), byte(id)}
+	default:
+		return nil
+	}
+}
+
+func newPref(kinds []string, primary, signer, key int) *prefParty {
+	ck := fmt.Sprintf("%v-%d-%d", kinds, primary, key)
+
+	ks, ok := prefCache[ck]
+	if !ok {
+		ks = buildKeyset(kinds, primary)
+		prefCache[ck] = ks
 	}
 
-	p := &prefParty{kind: kind}
+	ock := ck + "-other"
+
+	oks, ok := prefCache[ock]
+	if !ok {
+		oks = buildKeyset(kinds, primary)
+		prefCache[ock] = oks
+	}
+
+	p := &prefParty{kinds: kinds, primary: primary, signer: signer}
 
 	var err error
 
@@ -76,14 +130,27 @@ func newPref(kind string, key int) *prefParty {
 	p.verifC, err = tinkcrypto.New()
 	must(err)
 
-	p.kh, p.pubBytes = newKeyset(kind)
-	_, p.otherPubBytes = newKeyset(kind)
-	prefCache[ck] = p
+	// the issuer's keyset at the time key `signer` was the primary one
+	old, err := insecurecleartextkeyset.Read(keyset.NewBinaryReader(bytes.NewReader(ks.priv)))
+	must(err)
+
+	sm := keyset.NewManagerFromHandle(old)
+	must(sm.SetPrimary(ks.ids[signer]))
+
+	p.signKH, err = sm.Handle()
+	must(err)
+
+	p.pubBytes = ks.pub
+	p.otherPubBytes = oks.pub
+
+	for i, k := range kinds {
+		p.prefixes = append(p.prefixes, outputPrefix(k, ks.ids[i]))
+	}
 
 	return p
 }
 
-func (p *prefParty) sign(msgs [][]byte) ([]byte, error) { return p.issuerC.SignMulti(msgs, p.kh) }
+func (p *prefParty) sign(msgs [][]byte) ([]byte, error) { return p.issuerC.SignMulti(msgs, p.signKH) }
 
 func (p *prefParty) verify(msgs [][]byte, sig []byte) error {
 	return p.holderC.VerifyMulti(msgs, sig, readPub(p.pubBytes))
@@ -106,11 +173,5 @@ func (p *prefParty) verifyProof(revealed [][]byte, proof, nonce []byte, otherKey
 	return p.verifC.VerifyProof(revealed, proof, nonce, readPub(b))
 }
 
-// prefixLen is the number of bytes the keyset puts in front of signatures and proofs.
-func (p *prefParty) prefixLen() int {
-	if p.kind == "RAW" {
-		return 0
-	}
-
-	return 5
-}
+// prefixLen is the number of bytes the signing key puts in front of signatures and proofs.
+func (p *prefParty) prefixLen() int { return len(p.prefixes[p.signer]) }
